@@ -258,10 +258,13 @@ func w3Variants() []*w3Variant {
 	}
 
 	// -- alphabet
-	add("alphabet", "emit", 0, "", simple(func(w *w3World, i int) []any { return nil }))
-	add("alphabet", "vote", 2, "current epoch", simple(func(w *w3World, i int) []any {
-		return []any{w.epoch(), []any{w.princ("member0").Pub}}
-	}))
+	for _, c := range []string{"alphabet", "alphabet_hi", "alphabet_last"} {
+		lbl := map[string]string{"alphabet": "", "alphabet_hi": "instance whose index is not below the committee size", "alphabet_last": "instance with the last valid index"}[c]
+		add(c, "emit", 0, lbl, simple(func(w *w3World, i int) []any { return nil }))
+		add(c, "vote", 2, strings.TrimSpace("current epoch "+lbl), simple(func(w *w3World, i int) []any {
+			return []any{w.epoch(), []any{w.princ("member0").Pub}}
+		}))
+	}
 	for _, c := range []string{"alphabet", "neofs", "neofs_nd", "processing", "proxy"} {
 		c := c
 		add(c, "onNEP17Payment", 3, "direct invocation", func(w *w3World, i int) *w3Call {
